@@ -274,7 +274,12 @@ class Harness(object):
         self.defaults.clear()
         self.vals.clear()
         types = {}
-        insts = [self.make_middleware(i, m, types) for i, m in enumerate(cfg['mws'])]
+        insts = []
+        for i, m in enumerate(cfg['mws']):
+            if m.get('same_as') is not None:
+                insts.append(insts[m['same_as']])     # the very same object placed again
+            else:
+                insts.append(self.make_middleware(i, m, types))
         self.insts = insts
         ep = self.make_callable('ep', cfg['endpoint'], cfg['endpoint'].get('kind', 'func'))
         if cfg['endpoint'].get('script'):
